@@ -394,7 +394,7 @@ pub fn run(rep: &Report) {
     let fctx = fixed_contexts();
     rep.extra("fixed_shapes", json!(shapes.len()));
     run_enum(rep, "fixed_shapes", &shapes, |src, l| check_sources(&[("t.html".to_string(), src.clone())], &["t.html".to_string()], &fctx, 0, l));
-    let n = rep.tier.scale(60_000, 25);
+    let n = rep.tier.scale(120_000, 12);
     run_family(rep, "path_programs", n, || (pbody(3, false, false), pbody(1, false, false), prop::collection::vec(pctx(), 3), any::<u64>()), |(main, inc, ctxs, salt), l| {
         let mut m = main.clone();
         m.push(S::Include("inc".into()));
